@@ -41,7 +41,13 @@ func classify(f *Finding, input string, cfg Config) {
 	sig := f.Sig
 	has := func(s string) bool { return strings.Contains(sig, s) }
 	switch {
-	case f.Kind == "panic" || f.Kind == "timeout":
+	case f.Kind == "panic":
+		// N21: a third box keyword in background after "padding-box border-box" (index -1 in minifyProperty)
+		if n21Shape(input) && strings.Contains(f.Detail, "minifyProperty") {
+			f.ID = "N21"
+		}
+		return
+	case f.Kind == "timeout":
 		return
 	case strings.HasPrefix(sig, "selector:case-changed"):
 		f.ID = "K22"
@@ -223,4 +229,12 @@ func laterLayerHas3(decl string) bool {
 		}
 	}
 	return false
+}
+
+// n21Shape: "padding-box" followed by two more "border-box" (the minifier panics on
+// background:padding-box border-box border-box).
+func n21Shape(input string) bool {
+	l := strings.ToLower(input)
+	i := strings.Index(l, "padding-box")
+	return i >= 0 && strings.Count(l[i:], "border-box") >= 2
 }
